@@ -8,6 +8,7 @@ package retry
 
 import (
 	"context"
+	"errors"
 	"net/http"
 	"strconv"
 	"strings"
@@ -103,10 +104,34 @@ func (c Config) Validate() Config {
 	return validated
 }
 
+// StatusError reports an HTTP response with a failure status. It is classified by Code alone:
+// the rest of its text (typically the response body, which the peer controls) takes no part.
+type StatusError struct {
+	Code int
+	Err  error
+}
+
+// Error returns the text of the wrapped error.
+func (e *StatusError) Error() string { return e.Err.Error() }
+
+// Unwrap returns the wrapped error.
+func (e *StatusError) Unwrap() error { return e.Err }
+
 // IsRetryableError determines if an error is retryable based on its characteristics.
 // This function uses precise pattern matching to avoid false positives.
 func IsRetryableError(err error) bool {
 	if err == nil {
+		return false
+	}
+
+	var statusErr *StatusError
+	if errors.As(err, &statusErr) {
+		code := strconv.Itoa(statusErr.Code)
+		for _, retryable := range retryableStatusCodes {
+			if code == retryable {
+				return true
+			}
+		}
 		return false
 	}
 
